@@ -484,6 +484,7 @@ func (E *Engine) selftest(prop string) []map[string]any {
 		Name, Patch string
 		Reverse     bool
 		Expect      string
+		Benign      bool
 	}
 	var cs []canary
 	var idx []struct {
@@ -492,11 +493,21 @@ func (E *Engine) selftest(prop string) []map[string]any {
 		Reverse  bool   `json:"reverse"`
 		Property string `json:"property"`
 		Expect   string `json:"expect_obligation"`
+		Benign   bool     `json:"benign"`
+		Props    []string `json:"properties"`
 	}
 	_ = readJSON(filepath.Join(verifDir, "selftest", "index.json"), &idx)
 	for _, e := range idx {
-		if e.Property == prop {
-			cs = append(cs, canary{e.Name, filepath.Join(verifDir, e.Patch), e.Reverse, e.Expect})
+		if e.Property == prop && !e.Benign {
+			cs = append(cs, canary{e.Name, filepath.Join(verifDir, e.Patch), e.Reverse, e.Expect, false})
+		}
+		if e.Benign {
+			// must-pass corpus: behaviour-preserving edits of functions under contract; the check must stay silent
+			for _, q := range e.Props {
+				if q == prop {
+					cs = append(cs, canary{e.Name, filepath.Join(verifDir, e.Patch), false, "", true})
+				}
+			}
 		}
 	}
 	dirs, _ := filepath.Glob(filepath.Join(verifDir, "seeded", "C*"))
@@ -515,7 +526,7 @@ func (E *Engine) selftest(prop string) []map[string]any {
 			hit = hit || a == prop
 		}
 		if hit {
-			cs = append(cs, canary{"seed-" + filepath.Base(d), filepath.Join(d, "patch.diff"), false, ""})
+			cs = append(cs, canary{"seed-" + filepath.Base(d), filepath.Join(d, "patch.diff"), false, "", false})
 		}
 	}
 	var out []map[string]any
@@ -548,6 +559,16 @@ func (E *Engine) selftest(prop string) []map[string]any {
 			o, _ := cmd.CombinedOutput()
 			n := strings.Count(string(o), "DRY-VIOLATION")
 			rec["violations_reported"] = n
+			if c.Benign {
+				rec["kind"] = "behaviour-preserving edit (must stay silent)"
+				if n == 0 {
+					rec["status"] = "silent"
+				} else {
+					rec["status"] = "FALSE-ALARM"
+					fmt.Printf("SELFTEST-FALSE-ALARM: property=%s benign change %s is reported by this check\n", prop, c.Name)
+				}
+				return
+			}
 			if n > 0 {
 				rec["status"] = "reported"
 				var obs []string
